@@ -196,10 +196,12 @@ func (w *c16Worker) Run(path []POp) (bfs.Outcome, error) {
 		// The contributions are handled one after the other; the replies are serialised only after all of them have
 		// been handled (a server serialises a reply after its handler has returned, beside whatever else it handles).
 		late := map[uint64]func() (*bls.SecretKey, []bls.PublicKey, error){}
+		sent := map[uint64]*rig.Poly{}
 		for _, j := range []uint64{1, 3, 4} {
 			p := rig.NewPoly(2)
 			if f, err := w.c.Nodes[2].RecvContributeLate(rig.PeerName(j), account, p.Share(2), p.VVec); err == nil {
 				late[j] = f
+				sent[j] = p
 			}
 		}
 		for _, j := range []uint64{1, 3, 4} {
@@ -226,6 +228,17 @@ func (w *c16Worker) Run(path []POp) (bfs.Outcome, error) {
 			for _, k := range c16IDs {
 				if k != j && string(got) == string(shareOf(k)) {
 					out.Viol = append(out.Viol, bfs.Viol{Key: fmt.Sprintf("foreign-share:to=%d:of=%d", j, k), What: fmt.Sprintf("the reply to the contribution authenticated as peer %d contains the secret share of participant %d", j, k)})
+				}
+			}
+			// The same contribution once more (a retransmission): refused, or answered like the first time; never with
+			// somebody else's share.
+			if rs2, rv2, err := w.c.Nodes[2].RecvContribute(rig.PeerName(j), account, sent[j].Share(2), sent[j].VVec); err == nil {
+				got2 := rs2.GetPublicKey().Serialize()
+				for _, k := range c16IDs {
+					var pk bls.PublicKey
+					if k != j && pk.Set(rv2, util.BLSID(k)) == nil && string(got2) == string(pk.Serialize()) {
+						out.Viol = append(out.Viol, bfs.Viol{Key: fmt.Sprintf("foreign-share-on-repeat:to=%d:of=%d", j, k), What: fmt.Sprintf("the reply to a repeated contribution authenticated as peer %d contains the secret share of participant %d", j, k)})
+					}
 				}
 			}
 		}
